@@ -11,7 +11,7 @@ import sys
 import time
 
 ROOT = os.path.dirname(os.path.dirname(os.path.abspath(__file__)))
-PY = os.path.join(ROOT, ".venv", "bin", "python")
+PY = sys.executable  # the overlay interpreter running this check (/verif/.venv/bin/python)
 
 # check id -> list of (harness module, [function names] or None = every check_* function)
 HARNESSES = {
